@@ -42,16 +42,22 @@ def load_path(file_obj, file_type: Optional[str] = None, **kwargs):
         # trimesh.path.Path object so do nothing and return
         return file_obj
     elif util.is_file(arg.file_obj):
-        if arg.file_type in path_loaders:
-            kwargs.update(
-                path_loaders[arg.file_type](
-                    file_obj=arg.file_obj, file_type=arg.file_type
+        try:
+            if arg.file_type in path_loaders:
+                kwargs.update(
+                    path_loaders[arg.file_type](
+                        file_obj=arg.file_obj, file_type=arg.file_type
+                    )
                 )
-            )
-        elif arg.file_type == "ply":
-            # we cannot register this exporter to path_loaders since
-            # this is already reserved by Trimesh in ply format in trimesh.load()
-            kwargs.update(load_ply(file_obj=arg.file_obj, file_type=arg.file_type))
+            elif arg.file_type == "ply":
+                # we cannot register this exporter to path_loaders since
+                # this is already reserved by Trimesh in ply format in trimesh.load()
+                kwargs.update(load_ply(file_obj=arg.file_obj, file_type=arg.file_type))
+        finally:
+            # if we opened the file ourselves from a file
+            # name close it even if the loader crashed
+            if arg.was_opened:
+                arg.file_obj.close()
     elif util.is_instance_named(file_obj, ["Polygon", "MultiPolygon"]):
         # convert from shapely polygons to Path2D
         kwargs.update(misc.polygon_to_path(file_obj))
